@@ -24,6 +24,8 @@ func runC12(c *Ctx) {
 	c12Suffixed(c)
 	c12Helpers(c)
 	c18Flate(c)
+	// a compressed frame must stay what it was: its payload may not live in recycled memory
+	pooledEscapeRules(c, "C12")
 }
 
 func constBytes(v fold.Val) (string, bool) {
